@@ -225,7 +225,7 @@ PROPS = {
               "every Unicode scalar value as a one-character string through every text constructor of the five types (run-length encoded verdicts, judged element by element in TLA+), every 16-bit unit and every 32-bit value < 0x120000 through the byte-level constructors, hand-built and random byte strings (odd lengths, lone/paired surrogates, > U+10FFFF), random multi-character strings with planted outsiders, placement of sampled accepted values in names / alternative names with decoding, every string kind under every standard attribute type, the complete transfer encoding of every accepted code point block by block (BMPString all; UniversalString plane 0 in quick, all planes in thorough), a fixed list of delicate code points (BOM, non-characters, plane boundaries), the text views (as_str, as_ref, Display, == with str / String and references) on random texts and near misses; distinct by event arguments",
               ops=["StringRuns", "StringBlock", "StringViews", "StringBytes", "StringMulti", "StringPlace"], exhaustive=False),
     "C10": _p("exploration", ["panics", "cert", "time", "csr", "crl", "csrparse", "keys", "strings"], ["C10."],
-              "matrix enumerated by MC_Outcome: 4 generation functions x 52 hostile-but-constructible value classes (non-ASCII / NUL / empty / 64 KiB text in String-typed IA5 positions; OID lists [], [1], [3,1], [1,40], [1,39,max], [2,2^64-1], [2,2^64-81] (first unencodable), [2,2^64-82], [2,2^63], later arcs of 2^64-1, 1000 arcs in each of the four OID-carrying positions (product enumerated in TLA+); years -9999, -1, 0, 9999 and offsets that push the UTC year to -1 / 10000; empty and 1 MiB serials / CRL numbers / custom contents; malformed CSR attribute values) plus the 5 documented panics; 19 parser entry points x 6 byte-string classes over valid seeds (rcgen and OpenSSL certificates, CSRs, PKCS#8/SEC1/PKCS#1 keys, SPKIs, PEM texts): substitution of 8 values / truncation / insertion-deletion at every position (strided in quick), TLV-aware mutations with length repair reaching into extension values (12 kinds, including contents with every continuation bit set, non-minimal and over-long sub-identifiers), random bytes; Display/Debug of errors that echo caller input for invalid strings of every length 0..299 ending in 2/3/4-octet characters; coverage predicates require every cell; C10.no_panic is also evaluated on every event of the certificate, time, CSR, CRL, CSR-parsing, key and string pipelines; distinct by (function, class) cell and event arguments",
+              "matrix enumerated by MC_Outcome: 4 generation functions x 52 hostile-but-constructible value classes (non-ASCII / NUL / empty / 64 KiB text in String-typed IA5 positions; OID lists [], [1], [3,1], [1,40], [1,39,max], [2,2^64-1], [2,2^64-81] (first unencodable), [2,2^64-82], [2,2^63], later arcs of 2^64-1, 1000 arcs in each of the four OID-carrying positions (product enumerated in TLA+); years -9999, -1, 0, 9999 and offsets that push the UTC year to -1 / 10000; empty and 1 MiB serials / CRL numbers / custom contents; malformed CSR attribute values) each met under six backgrounds of the other parameters (plain, present-but-empty name constraints, CA with path length, ExplicitNoCa, AKI + CRL DP + name constraints, every kind of SAN / KU / EKU / custom extension) plus the 5 documented panics; 19 parser entry points x 6 byte-string classes over valid seeds (rcgen and OpenSSL certificates, CSRs, PKCS#8/SEC1/PKCS#1 keys, SPKIs, PEM texts): substitution of 8 values / truncation / insertion-deletion at every position (strided in quick), TLV-aware mutations with length repair reaching into extension values (12 kinds, including contents with every continuation bit set, non-minimal and over-long sub-identifiers), random bytes; Display/Debug of errors that echo caller input for invalid strings of every length 0..299 ending in 2/3/4-octet characters; coverage predicates require every cell; C10.no_panic is also evaluated on every event of the certificate, time, CSR, CRL, CSR-parsing, key and string pipelines; distinct by (function, class) cell and event arguments",
               ops=None, exhaustive=False),
     "C11": _p("model_checking", ["keys"], ["C11."],
               "keys generated by rcgen (generate_for every algorithm, generate_rsa_for 2048/3072(/4096) under aws-lc-rs; unavailable generation must be an error) held to every clause of a loaded key; key type (Ed25519, P-256, P-384, P-521, RSA-2048, RSA-3072; 4096 in thorough) x origin/format (OpenSSL PKCS#8, SEC1, PKCS#1; rcgen-generated PKCS#8 v1/v2) x 9 loading entry points x requested algorithm (none + every algorithm of the build, all misfits) x back end (ring, aws-lc-rs); every successful load signs, re-exports and re-loads through every one of the 9 entry points (told the key's own algorithm where one is asked for); Ed25519 keys whose public key begins with 0x00 / 0xff / 0x30 / 0x04 or ends with 0x00; plus the algorithm table event; distinct by (key type, format, entry, requested algorithm, back end)",
